@@ -111,8 +111,9 @@ def run_pairs(R, cases, M, judge=True):
     ops_ = sorted({I.spec(g) for c, *_ in idx for g in (c.ga, c.gb)})
     for sp, h in zip(ops_, M.many([["chyp", sp] for sp in ops_]) if ops_ else []):
         R.count("operands_seen_by_model")
-        if h == ["true", "true"]: R.count("operands_meeting_theorem_hypotheses")
+        if h[:2] == ["true", "true"]: R.count("operands_meeting_theorem_hypotheses")
         elif h[:1] == ["true"]: R.count("operands_good_but_not_sorted")
+        if h[2:3] == ["false"]: R.count("operands_with_a_degenerate_member")
         elif h == ["badoperand"]: R.count("operands_not_parsed_by_model")
         else: R.count("operands_outside_hypotheses(local_label_or_improper)")
     mres = M.many(reqs) if reqs else []
